@@ -5,7 +5,7 @@ Require Extraction.
 Require Import ExtrOcamlBasic.
 From Coq Require Import ZArith List.
 From Cedar Require Import Base.Int64 Lang.Value Lang.Expr Impl.Authorize Impl.Like Impl.Eval
-  Impl.Decimal Impl.Duration Impl.Datetime Impl.IPAddr Impl.Fold Impl.PolicySet Impl.HashSet Impl.Partial Impl.Batch Impl.Hash Impl.SetTable Generated.Tables Impl.Scanner Impl.Tokenizer Lang.Cursor Impl.Quote Impl.IPPrint Impl.Parser Impl.Printer Base.Json Impl.ValueJson Impl.PolicyJson Impl.SchemaResolve.
+  Impl.Decimal Impl.Duration Impl.Datetime Impl.IPAddr Impl.Fold Impl.PolicySet Impl.HashSet Impl.Partial Impl.Batch Impl.Hash Impl.SetTable Generated.Tables Impl.Scanner Impl.Tokenizer Lang.Cursor Impl.Quote Impl.IPPrint Impl.Parser Impl.Printer Base.Json Impl.ValueJson Impl.PolicyJson Impl.SchemaResolve Impl.TypeCheck.
 Extraction Language OCaml.
 Extraction "model.ml"
   Authorize.authorize
@@ -25,4 +25,5 @@ Extraction "model.ml"
   Parser.p_policies Printer.policy_items Printer.render Printer.toks IPPrint.print_ip Quote.string_value Quote.parse_pattern
   ValueJson.encode_value ValueJson.decode_value
   PolicyJson.enc_policy PolicyJson.dec_policy
-  SchemaResolve.resolve_schema SchemaResolve.is_descendant.
+  SchemaResolve.resolve_schema SchemaResolve.is_descendant
+  TypeCheck.typeof.
